@@ -1903,6 +1903,111 @@ def r_str_membership(ctx, rid):
     membership_in_string(ctx, rid)
 
 
+def _memo_shape(ctx, mro, attr: str):
+    """Is `self.<attr>` used as a memo table: every write is `self.attr[K] = V` inside ONE function that first looks the same key
+    up (`self.attr[K]`, `K in self.attr`, `.get(K)`), the only other operations being `clear()` / size tests?
+    -> (function, the store statement, key expression) or None."""
+    stores, other = [], []
+    for k in mro:
+        for m in k.methods.values():
+            for n in ast.walk(m.node):
+                if isinstance(n, ast.Attribute) and n.attr == attr and isinstance(n.value, ast.Name) and n.value.id in (m.self_name, "cls", k.name):
+                    p_ = parent(n)
+                    if isinstance(p_, ast.Subscript) and p_.value is n and isinstance(p_.ctx, ast.Store):
+                        stores.append((m, _stmt(p_), p_.slice))
+                    elif isinstance(p_, ast.Subscript) and p_.value is n and isinstance(p_.ctx, ast.Del):
+                        other.append("del")
+                    elif isinstance(p_, ast.Attribute) and isinstance(parent(p_), ast.Call) and parent(p_).func is p_ \
+                            and p_.attr not in ("clear", "get", "keys", "values", "items", "copy", "__contains__", "__len__"):
+                        other.append(p_.attr)
+                    elif isinstance(n.ctx, ast.Store):
+                        other.append("rebound")
+    if len(stores) != 1 or other:
+        return None
+    m, st, key = stores[0]
+    # a memo is consulted by key in the function that fills it, nowhere else, and never read as a collection (iteration, items(),
+    # values(), membership of something else, hand-over): a table other code enumerates or looks into is state, not a memo
+    for k in mro:
+        for g in k.methods.values():
+            for n in ast.walk(g.node):
+                if isinstance(n, ast.Attribute) and n.attr == attr and isinstance(n.value, ast.Name) and n.value.id in (g.self_name, "cls", k.name):
+                    p_ = parent(n)
+                    if g is not m:
+                        if isinstance(p_, ast.Attribute) and p_.attr == "clear":
+                            continue
+                        return None
+                    keyed = (isinstance(p_, ast.Subscript) and p_.value is n) or \
+                        (isinstance(p_, ast.Compare) and n in p_.comparators and isinstance(p_.ops[0], (ast.In, ast.NotIn))) or \
+                        (isinstance(p_, ast.Attribute) and p_.attr in ("get", "clear")) or \
+                        (isinstance(p_, ast.Call) and isinstance(p_.func, ast.Name) and p_.func.id == "len")
+                    if not keyed:
+                        return None
+    if not isinstance(st, ast.Assign):
+        return None
+    ktxt = ast.unparse(key)
+    looked_up = False
+    for n in walk_shallow(m.node):
+        if isinstance(n, ast.Subscript) and isinstance(n.ctx, ast.Load) and isinstance(n.value, ast.Attribute) and n.value.attr == attr \
+                and ast.unparse(n.slice) == ktxt:
+            looked_up = True
+        if isinstance(n, ast.Compare) and len(n.ops) == 1 and isinstance(n.ops[0], (ast.In, ast.NotIn)) and ast.unparse(n.left) == ktxt \
+                and isinstance(n.comparators[0], ast.Attribute) and n.comparators[0].attr == attr:
+            looked_up = True
+        if isinstance(n, ast.Call) and isinstance(n.func, ast.Attribute) and n.func.attr == "get" and isinstance(n.func.value, ast.Attribute) \
+                and n.func.value.attr == attr and n.args and ast.unparse(n.args[0]) == ktxt:
+            looked_up = True
+    return (m, st, key) if looked_up else None
+
+
+_DICT_TO_KEYS = ("frozenset", "set", "list", "tuple", "sorted")
+
+
+def _memo_key_gap(ctx, f, store: ast.Assign, key_expr: ast.AST) -> Optional[str]:
+    """A positive reason why the memo key misses an input of the stored value: (a) the shared lint persistent_memo_key (a parameter
+    / instance attribute the value is computed from does not enter the key); (b) a mapping parameter enters the key only through
+    `frozenset(d)` / `set(d)` / `list(d)` / `tuple(d)` / `sorted(d)` / `d.keys()`, which keep the keys of a dict and drop what
+    they map to."""
+    from ._pitfall_lints import persistent_memo_key
+    for g, st, why in persistent_memo_key(ctx, [f]):
+        if st is store:
+            return why
+    S = Scope(ctx, f)
+    k = S.single_value(key_expr)
+    params = [p for p in f.params if p != f.self_name]
+
+    def is_mapping(p):
+        ann = next((a.annotation for a in f.node.args.args + f.node.args.kwonlyargs if a.arg == p), None)
+        if ann is not None and re.search(r"\b(dict|Dict|Mapping|OrderedDict)\b", ast.unparse(ann)):
+            return True
+        for n in ast.walk(f.node):
+            if isinstance(n, ast.Attribute) and isinstance(n.value, ast.Name) and n.value.id == p and n.attr in ("items", "values", "get", "update"):
+                return True
+            if isinstance(n, ast.Subscript) and isinstance(n.value, ast.Name) and n.value.id == p and not isinstance(n.slice, ast.Slice):
+                return True
+            if isinstance(n, ast.Call) and isinstance(n.func, ast.Attribute) and n.func.attr in ("xreplace", "subs") \
+                    and any(isinstance(x, ast.Name) and x.id == p for x in n.args):
+                return True
+        return False
+    full, domain_only = set(), {}
+    for n in ast.walk(k):
+        if isinstance(n, ast.Name) and n.id in params:
+            par = parent(n) if hasattr(n, "_parent") else None
+            reduced = None
+            if isinstance(par, ast.Call) and isinstance(par.func, ast.Name) and par.func.id in _DICT_TO_KEYS and par.args and par.args[0] is n:
+                reduced = f"{par.func.id}({n.id})"
+            elif isinstance(par, ast.Attribute) and par.attr == "keys":
+                reduced = f"{n.id}.keys()"
+            if reduced and is_mapping(n.id):
+                domain_only.setdefault(n.id, reduced)
+            else:
+                full.add(n.id)
+    for p_, how in domain_only.items():
+        if p_ not in full:
+            return (f"its key `{ast.unparse(k)[:70]}` takes the mapping `{p_}` only through `{how}`, which keeps the KEYS of a dict and drops "
+                    f"the values they map to, while the stored value is computed from that mapping")
+    return None
+
+
 def r7_export_state_is_per_instance(ctx, rid):
     """Every container of a backend instance that the auto-07p export reads slots, declaration order, STPNT values or code from must
     be per-instance state.  The exporter's functions (their inlined views) are scanned for `self.<attr>` reads; those attributes
@@ -1971,7 +2076,20 @@ def r7_export_state_is_per_instance(ctx, rid):
                  "bound_in_init": bound_init[a][0].qualname if a in bound_init else None,
                  "class_level": f"{cls_level[0].name}.{a} = {ast.unparse(cls_level[1])[:40]}" if cls_level else None}
         hit = next((h for (cn, nm), h in hit_attr.items() if nm == a and any(k.name == cn for k in mro)), None)
-        if a in bound_init:
+        memo = _memo_shape(ctx, mro, a) if (a not in bound_init and cls_level is not None) else None
+        if memo is not None:
+            # a class-level memo table: legitimate when its key records everything the memoised value depends on
+            mf, store, key_expr = memo
+            label_m = f"memo key of self.{a} covers its inputs"
+            why = _memo_key_gap(ctx, mf, store, key_expr)
+            if why:
+                ctx.violation(rid, mf, store, f"`self.{a}` is a class-level memo shared by all exports of the process and {why}: a later "
+                                              f"export whose inputs differ there is handed the text memoised for the earlier one "
+                                              f"(e.g. `args(k)` / `y(i)` of another slot layout)", facts, label=label_m)
+            else:
+                ctx.ok(rid, mf, store, f"`self.{a}` is a class-level memo whose key `{ast.unparse(key_expr)[:70]}` is built from every input "
+                                       f"the stored value is computed from", facts, label=label_m)
+        elif a in bound_init:
             ctx.ok(rid, bound_init[a][0], _stmt(bound_init[a][1]), f"`self.{a}` (read by the exporter in {read[a].qualname}, filled in "
                                                                    f"{m_w.qualname}) is bound per instance in {bound_init[a][0].qualname}", facts,
                    label=label)
